@@ -166,6 +166,9 @@ class Resolver:
                 return E("const", None, "fn", c.get("def"), c)
             if c.get("closure"):
                 return E("closure", c["closure"], [])
+            if c.get("enum_ref"):
+                er = c["enum_ref"]
+                return E("ref", E("agg", er["adt"], er["variant"], [], []), False)
             return E("const", c.get("int"), c.get("ty"), c.get("str") if c.get("float") is None else c.get("float"), c)
         return self.place(op_place(o), depth)
 
